@@ -666,7 +666,7 @@ theorem beginFile_nb (cfg : Cfg) (d : ParsedData) (imports) (hf : FileOk cfg d i
     · nb_lit
 
 theorem writeImports_nb (cfg : Cfg) (i : Pipeline.ScopedCrateTypes) (hp : Dotted cfg.package)
-    (hi : ∀ p ∈ i, Dotted p.1 ∧ ∀ t ∈ p.2, Dotted t) : NB K (writeImports cfg i) := by
+    (hx : KeyStr cfg.pfx) (hi : ∀ p ∈ i, Dotted p.1 ∧ ∀ t ∈ p.2, Dotted t) : NB K (writeImports cfg i) := by
   unfold writeImports
   refine NB.append (NB.flatMap _ _ ?_) NB.nl
   intro p hpm
@@ -679,6 +679,7 @@ theorem writeImports_nb (cfg : Cfg) (i : Pipeline.ScopedCrateTypes) (hp : Dotted
   · nb_lit
   · exact (hi _ hpm).1.nb
   · nb_lit
+  · exact hx.nb
   · exact ((hi _ hpm).2 t ht).nb
   · exact NB.nl
 
